@@ -31,9 +31,11 @@ Proof. vm_compute. reflexivity. Qed.
 Lemma start_over_transcribed : forall aof, so_run aof follow_start_over = Some (proved_ops aof).
 Proof. intros [|]; vm_compute; reflexivity. Qed.
 
-(* followReset = FLUSHDB (collections, hooks, channels and their indexes) + reset() (aofsz = 0, collections) *)
-Lemma follow_reset_transcribed : all_effs follow_reset = ["call s.cmdFLUSHDB"; "call s.reset"]%string.
-Proof. vm_compute. reflexivity. Qed.
+(* followReset always runs FLUSHDB (collections, hooks, channels and their indexes) and reset() (aofsz = 0,
+   collections), whatever else it does (other statements of the function are not constrained) *)
+Lemma follow_reset_transcribed :
+  calls_unguarded "call s.cmdFLUSHDB" follow_reset = true /\ calls_unguarded "call s.reset" follow_reset = true.
+Proof. vm_compute. split; reflexivity. Qed.
 
 Open Scope list_scope.
 Open Scope Z_scope.
